@@ -256,3 +256,35 @@ Proof.
   intros Hf Hs. unfold ops_covered. destruct (sat_data (ext_of_gen fx c m)); [|contradiction].
   rewrite (cms_free_ast m Hf). apply N.leb_le. lia.
 Qed.
+
+(* ------------------------------------------------------------------ outside ops_covered
+   The scripts outside the class are those where a CHECKMULTISIG sits on a path that the figure's
+   satisfactions do not take: under d:/j: on the dissatisfied side (the figure counts 0 keys for the
+   canonical dissatisfaction, which skips the body) or in a branch whose selector the figure treats as
+   never taken. For those the all-executions formulation is FALSE, so the class cannot be widened
+   without restricting the statement to satisfier-produced witnesses: j:and_b(multi,a:sha256) can also
+   be dissatisfied non-canonically (valid signature, wrong preimage), executing its CHECKMULTISIG, after
+   which or_d runs the second multi. Accepted by the Script semantics, 22 counted ops, figure 19.
+   The script is malleable (m_nm = false), so sanity-checked descriptors exclude it, and the library's
+   satisfier never produces this witness: not a library defect, a limit of the formulation. *)
+Definition rf_env : env :=
+  mkEnv SvWitnessV0 0 0 2 (fun _ s => match s with [] => false | _ => true end) (fun _ => true)
+        (fun _ => repeat 1 32) (fun _ => repeat 1 32) (fun _ => repeat 1 20) (fun _ => repeat 1 20).
+Definition rf_ke : keyenv := mkKeyEnv (fun k => repeat k 33) (fun k => repeat k 20) (fun l => l).
+Definition rf_ms : ms :=
+  MOrD (MNonZero (MAndB (MMulti 1 [0; 1; 2]) (MAlt (MSha256 (repeat 0 32))))) (MMulti 1 [3; 4; 5]).
+Definition rf_wit : stack := [[48]; []; repeat 7 32; [48]; []].
+
+Theorem exec_ops_all_executions_refuted :
+  exists tym st' t' n,
+    type_of rf_ms = ROk tym /\ ext_safe as_written cx_segwit rf_ms = true
+    /\ no_multi_a rf_ms = true /\ multi_small rf_ms = true
+    /\ ops_covered as_written cx_segwit rf_ms = false
+    /\ exec_tr rf_env (enc rf_ke rf_ms) (mkSt rf_wit []) (mkTrace 0 5) = Ok (st', t')
+    /\ stk st' = [[1]]
+    /\ sat_op_count (ext_of_gen as_written cx_segwit rf_ms) = Some n
+    /\ n < count_ops (enc rf_ke rf_ms) + tr_cms t'.
+Proof.
+  exists (mkTy (mkCorr BB IAny true true) (mkMall DUnique true false)), (mkSt [[1]] []), (mkTrace 6 10), 19.
+  vm_compute. repeat split; reflexivity.
+Qed.
